@@ -190,7 +190,8 @@ def run_faces(rec, seed):
     N = 3
     ds = xr.Dataset(coords={"x": ("x", np.arange(N) + 0.5, {"units": "ux"}), "xl": ("xl", np.arange(N) * 1.0), "y": ("y", np.arange(N) + 0.5),
                             "yl": ("yl", np.arange(N) * 1.0, {"units": "uyl"}), "face": ("face", [0, 1]), "t": ("t", [10.0, 20.0])})
-    ds = ds.assign_coords(depth=(("face", "y", "x"), np.arange(2 * N * N).reshape(2, N, N) * 1.0), area_l=(("face", "y", "xl"), np.ones((2, N, N))), s0=((), 3.0))
+    ds = ds.assign_coords(depth=(("face", "y", "x"), np.arange(2 * N * N).reshape(2, N, N) * 1.0), area_l=(("face", "y", "xl"), np.ones((2, N, N))), s0=((), 3.0),
+                          corner=(("yl", "xl"), np.arange(N * N).reshape(N, N) * 2.0), lat_l=(("yl",), np.arange(N) * 3.0))
     fc = {"face": {0: {"X": (None, (1, "X", False)), "Y": ((1, "Y", False), None)}, 1: {"X": ((0, "X", False), None), "Y": (None, (0, "Y", False))}}}
     with warnings.catch_warnings():
         warnings.simplefilter("ignore")
@@ -198,14 +199,14 @@ def run_faces(rec, seed):
                  boundary="extend", autoparse_metadata=False)
     vals = ((np.arange(2 * 2 * N * N) * 5 + seed) % 17).astype(float).reshape(2, 2, N, N)
     for op in ("diff", "interp", "min", "max"):
-        for ax, din, dout in (("X", "x", "xl"), ("Y", "y", "yl")):
+        for ax, din, dout in (("X", "x", "xl"), ("Y", "y", "yl"), (["X", "Y"], None, None), (("Y", "X"), None, None)):
             for carry in ("own", "none"):
                 for kc in (True, False):
-                    case = dict(faces=True, op=op, ax=ax, carry=carry, kc=kc)
+                    case = dict(faces=True, op=op, ax=ax if isinstance(ax, str) else list(ax), carry=carry, kc=kc)
                     da = xr.DataArray(vals, dims=["t", "face", "y", "x"], name="foo")
                     if carry == "own":
                         da = da.assign_coords({c: ds.coords[c] for c in ds.coords if set(ds.coords[c].dims) <= set(da.dims)})
-                    rec.case(("faces", op, ax, carry, kc), True, sample=case)
+                    rec.case(("faces", op, str(ax), carry, kc), True, sample=case)
                     try:
                         with warnings.catch_warnings():
                             warnings.simplefilter("ignore")
@@ -213,7 +214,9 @@ def run_faces(rec, seed):
                     except Exception as e:
                         rec.violation("labels-faces", "raise:" + exc_sig(e), case, "array", f"{type(e).__name__}: {e}"[:200])
                         continue
-                    edims = tuple(dout if d == din else d for d in da.dims)
+                    # (several axes in one call: every named axis moves, and keep_coords holds for the whole call)
+                    ren = {din: dout} if isinstance(ax, str) else {"x": "xl", "y": "yl"}
+                    edims = tuple(ren.get(d, d) for d in da.dims)
                     if r.dims != edims:
                         rec.violation("labels-faces", "dims", case, list(edims), list(r.dims))
                         continue
